@@ -440,6 +440,9 @@ func AbstractBlock(spec *common.Spec, env *common.BeaconBlockEnvelope, c *BlockC
 	}
 	if sync != nil {
 		n := int(spec.SYNC_COMMITTEE_SIZE)
+		if len(sync.SyncCommitteeBits) != (n+7)/8 {
+			n = 8 * len(sync.SyncCommitteeBits) // not a value of Bitvector[SYNC_COMMITTEE_SIZE]: the length shows
+		}
 		bits := make([]int, n)
 		for i := 0; i < n && i/8 < len(sync.SyncCommitteeBits); i++ {
 			if (sync.SyncCommitteeBits[i/8]>>uint(i%8))&1 == 1 {
